@@ -561,7 +561,7 @@ def main(tier, seed, replay, jobs, scale):
         import json
         cases = [tuple(json.load(open(replay))["replay"]["case"])]
     else:
-        n = int((400 if tier == "quick" else 4000) * scale)
+        n = int((1200 if tier == "quick" else 4000) * scale)
         cases = [(seed, i, tier) for i in range(n)]
         # fix -e / -b on bad-marked stripes whose files the user went on changing after the sync
         cases += [(seed, 100000 + i, tier) for i in range(max(4, n // 8))]
